@@ -79,3 +79,171 @@ Proof. intros H. destruct m; cbn [bind]; auto. Qed.
 
 Lemma bind_Panic {A B} (k : A -> res B) : bind Panic k = Panic.
 Proof. reflexivity. Qed.
+
+(* ---------------------------------------------------------------------------------------------
+   folds: the generated loop state is a tuple of the variables, the model's a record (or the same
+   variables in another order); `for i in 0..v.len()` with `v[i]` against a fold over `v`
+   --------------------------------------------------------------------------------------------- *)
+Lemma rmap_Ok {A B} (f : A -> B) a : rmap f (Ok a) = Ok (f a).
+Proof. reflexivity. Qed.
+
+Lemma rmap_bind {A B C} (f : B -> C) (m : res A) (k : A -> res B) :
+  rmap f (bind m k) = bind m (fun a => rmap f (k a)).
+Proof. destruct m; reflexivity. Qed.
+
+Lemma bind_rmap {A B C} (f : A -> B) (m : res A) (k : B -> res C) :
+  bind (rmap f m) k = bind m (fun a => k (f a)).
+Proof. destruct m; reflexivity. Qed.
+
+(* the same fold on two representations of the state *)
+Lemma fold_res_map {S T A} (phi : T -> S) (G : S -> A -> res S) (M : T -> A -> res T) l :
+  (forall t x, G (phi t) x = rmap phi (M t x)) ->
+  forall t, fold_res G l (phi t) = rmap phi (fold_res M l t).
+Proof.
+  intros H. induction l as [|x r IH]; intro t; [reflexivity|].
+  cbn [fold_res]. rewrite H. destruct (M t x) as [t'|]; cbn [rmap bind]; [apply IH | reflexivity].
+Qed.
+
+Lemma nrange_0 n : nrange 0 n = nseq n.
+Proof. unfold nrange, nseq. now rewrite N.sub_0_r. Qed.
+
+Lemma nrange_self a : nrange a a = [].
+Proof. apply nrange_empty. lia. Qed.
+
+(* `for i in 0..l.len() { .. l[i] .. }` (G reads l at i itself) against a fold over the elements of l; I relates
+   the elements consumed so far to the model state (e.g. "the counter is their number") *)
+Lemma fold_nrange_inv {S T A} (phi : T -> S) (I : list A -> T -> Prop) (G : S -> N -> res S) (M : T -> A -> res T)
+    (l : list A) :
+  (forall pre x post t, l = pre ++ x :: post -> I pre t ->
+     G (phi t) (lenN pre) = rmap phi (M t x) /\ (forall t', M t x = Ok t' -> I (pre ++ [x]) t')) ->
+  forall rest pre t, l = pre ++ rest -> I pre t ->
+  fold_res G (nrange (lenN pre) (lenN l)) (phi t) = rmap phi (fold_res M rest t) /\
+  (forall t', fold_res M rest t = Ok t' -> I l t').
+Proof.
+  intros H. induction rest as [|x r IH]; intros pre t Hl Hi.
+  - rewrite app_nil_r in Hl. subst pre. rewrite nrange_self. split; [reflexivity|]. now intros t' [= <-].
+  - assert (Hlt : lenN pre < lenN l) by (subst l; rewrite lenN_app, lenN_cons; lia).
+    rewrite nrange_cons by exact Hlt. cbn [fold_res].
+    destruct (H pre x r t Hl Hi) as [HG Hix]. rewrite HG.
+    destruct (M t x) as [t'|]; cbn [rmap bind]; [|split; [reflexivity | discriminate]].
+    replace (N.succ (lenN pre)) with (lenN (pre ++ [x])) by (rewrite lenN_snoc; lia).
+    apply IH; [now rewrite <- app_cons_assoc | now apply Hix].
+Qed.
+
+Lemma fold_nrange_inv0 {S T A} (phi : T -> S) (I : list A -> T -> Prop) (G : S -> N -> res S) (M : T -> A -> res T)
+    (l : list A) t :
+  (forall pre x post t, l = pre ++ x :: post -> I pre t ->
+     G (phi t) (lenN pre) = rmap phi (M t x) /\ (forall t', M t x = Ok t' -> I (pre ++ [x]) t')) ->
+  I [] t ->
+  fold_res G (nrange 0 (lenN l)) (phi t) = rmap phi (fold_res M l t) /\
+  (forall t', fold_res M l t = Ok t' -> I l t').
+Proof. intros H Hi. now apply (fold_nrange_inv phi I G M l H l [] t). Qed.
+
+(* the invariant "a counter of the model state is the number of elements consumed" *)
+Lemma fold_nrange_sim0 {S T A} (phi : T -> S) (ix : T -> N) (G : S -> N -> res S) (M : T -> A -> res T)
+    (l : list A) t :
+  (forall pre x post t, l = pre ++ x :: post -> ix t = lenN pre ->
+     G (phi t) (lenN pre) = rmap phi (M t x) /\ (forall t', M t x = Ok t' -> ix t' = lenN pre + 1)) ->
+  ix t = 0 ->
+  fold_res G (nrange 0 (lenN l)) (phi t) = rmap phi (fold_res M l t).
+Proof.
+  intros H Hi. apply (fold_nrange_inv0 phi (fun pre t => ix t = lenN pre) G M l t); [|exact Hi].
+  intros pre x post t0 Hl Hi0. destruct (H pre x post t0 Hl Hi0) as [HG Hix]. split; [exact HG|].
+  intros t' Ht. rewrite lenN_snoc. now apply Hix.
+Qed.
+
+(* `for &x in v.iter() { acc.push(x) }` *)
+Lemma fold_push {A} (l acc : list A) : fold_res (fun acc x => Ok (acc ++ [x])) l acc = Ok (acc ++ l).
+Proof.
+  revert acc; induction l as [|x r IH]; intro acc; cbn [fold_res bind]; [now rewrite app_nil_r|].
+  rewrite IH. now rewrite <- app_assoc.
+Qed.
+
+(* `for _ in it { acc.push(v) }` *)
+Lemma fold_push_const {A B} (v : A) (l : list B) acc :
+  fold_res (fun acc _ => Ok (acc ++ [v])) l acc = Ok (acc ++ map (fun _ => v) l).
+Proof.
+  revert acc; induction l as [|x r IH]; intro acc; cbn [fold_res bind map]; [now rewrite app_nil_r|].
+  rewrite IH. now rewrite <- app_assoc.
+Qed.
+
+(* ---------------------------------------------------------------------------------------------
+   loopN W against the bounded fuel of a model loop: a loop that provably ends within n further iterations
+   (P n) gives the same result under every sufficient bound
+   --------------------------------------------------------------------------------------------- *)
+Lemma loopN_fuel {S R} (step : S -> res (S + R)) (P : nat -> S -> Prop) :
+  (forall s s', P 0%nat s -> step s = Ok (inl s') -> False) ->
+  (forall n s s', P (Datatypes.S n) s -> step s = Ok (inl s') -> P n s') ->
+  forall n s fuel m, P n s -> (n < fuel)%nat -> N.of_nat n < m -> loopN m step s = iter_fuel fuel step s.
+Proof.
+  intros H0 HS. induction n as [|n IH]; intros s fuel m HP Hf Hm.
+  - destruct fuel as [|fuel]; [lia|]. rewrite loopN_step by lia. cbn [iter_fuel].
+    destruct (step s) as [[s'|r]|] eqn:E; cbn [bind]; try reflexivity. exfalso. eapply H0; eauto.
+  - destruct fuel as [|fuel]; [lia|]. rewrite loopN_step by lia. cbn [iter_fuel].
+    destruct (step s) as [[s'|r]|] eqn:E; cbn [bind]; try reflexivity.
+    apply IH; [eapply HS; eauto | lia | lia].
+Qed.
+
+(* a loop whose exits carry more than the model's (the generated code leaves with the whole state) *)
+Definition exit_map {S R R'} (f : R -> R') (o : S + R) : S + R' :=
+  match o with inl s => inl s | inr r => inr (f r) end.
+
+Lemma loopN_map {S R R'} (f : R -> R') (s1 : S -> res (S + R)) (s2 : S -> res (S + R')) :
+  (forall s, s2 s = rmap (exit_map f) (s1 s)) ->
+  forall n s, loopN n s2 s = rmap f (loopN n s1 s).
+Proof.
+  intros H n. induction n as [|n IH] using N.peano_ind; intro s; [reflexivity|].
+  rewrite !loopN_step by lia. rewrite H. replace (N.succ n - 1) with n by lia.
+  destruct (s1 s) as [[s'|r]|]; cbn [rmap exit_map]; auto.
+Qed.
+
+Lemma add_lt_W c a b r : add c a b = Ok r -> r < W.
+Proof.
+  unfold add. destruct (N.ltb_spec (a + b) W); [intros [= <-]; assumption|].
+  destruct (dbg c); [discriminate|]. intros [= <-]. apply wrap_lt.
+Qed.
+
+Lemma sub_lt_W c a b r : a < W -> sub c a b = Ok r -> r < W.
+Proof.
+  unfold sub. intros Ha. destruct (N.leb_spec b a); [intros [= <-]; lia|].
+  destruct (dbg c); [discriminate|]. intros [= <-]. apply wrap_lt.
+Qed.
+
+(* two loops in lockstep on related states; the continuations agree on related exits *)
+Lemma loopN_sim_bind {S1 R1 S2 R2 T} (RS : S1 -> S2 -> Prop) (RR : R1 -> R2 -> Prop)
+    (step1 : S1 -> res (S1 + R1)) (step2 : S2 -> res (S2 + R2)) (K1 : R1 -> res T) (K2 : R2 -> res T) :
+  (forall s1 s2, RS s1 s2 ->
+     match step1 s1, step2 s2 with
+     | Ok (inl a), Ok (inl b) => RS a b
+     | Ok (inr a), Ok (inr b) => RR a b
+     | Panic, Panic => True
+     | _, _ => False
+     end) ->
+  (forall r1 r2, RR r1 r2 -> K1 r1 = K2 r2) ->
+  forall n s1 s2, RS s1 s2 -> bind (loopN n step1 s1) K1 = bind (loopN n step2 s2) K2.
+Proof.
+  intros Hs HK n. induction n as [|n IH] using N.peano_ind; intros s1 s2 HR; [reflexivity|].
+  rewrite !loopN_step by lia. replace (N.succ n - 1) with n by lia.
+  specialize (Hs s1 s2 HR). destruct (step1 s1) as [[a|a]|], (step2 s2) as [[b|b]|]; try contradiction.
+  - now apply IH.
+  - cbn [bind]. now apply HK.
+  - reflexivity.
+Qed.
+
+(* loop invariant *)
+Lemma loopN_inv {S R} (step : S -> res (S + R)) (I : S -> Prop) (Q : R -> Prop) :
+  (forall s, I s -> match step s with Ok (inl s') => I s' | Ok (inr r) => Q r | Panic => True end) ->
+  forall n s r, I s -> loopN n step s = Ok r -> Q r.
+Proof.
+  intros H n. induction n as [|n IH] using N.peano_ind; intros s r Hi E; [discriminate|].
+  rewrite loopN_step in E by lia. replace (N.succ n - 1) with n in E by lia.
+  specialize (H s Hi). destruct (step s) as [[s'|r']|]; [now apply (IH s') | now injection E as <- | discriminate].
+Qed.
+
+Lemma shr_le c a s r : shr c a s = Ok r -> r <= a.
+Proof.
+  assert (H : forall k, N.shiftr a k <= a).
+  { intro k. rewrite N.shiftr_div_pow2. apply N.div_le_upper_bound; [apply N.pow_nonzero; discriminate|].
+    assert (0 < 2 ^ k) by (apply N.neq_0_lt_0, N.pow_nonzero; discriminate). nia. }
+  unfold shr. destruct (s <? 64); [intros [= <-]; apply H|]. destruct (dbg c); [discriminate|]. intros [= <-]. apply H.
+Qed.
